@@ -63,11 +63,15 @@ def dense(out, ins, vals, shapes):
 
 
 class Kernel:
-    def __init__(self, out, ins, order, tiles=None, style="two-finger", inner_after=False):
+    def __init__(self, out, ins, order, tiles=None, style="two-finger", inner_after=False, prep=None):
         self.out, self.ins, self.order = tuple(out), [tuple(r) for r in ins], list(order)
         self.tiles = dict(tiles or {})
         self.style = style
         self.inner_after = inner_after     # inner tile loop directly after its outer loop
+        # general schedules: prep = sequence of ("split", rank id, tile size) / ("swizzle", [rank ids]) steps applied
+        # to every operand holding the rank(s), in this order (so a rank may be tiled again after a re-ordering);
+        # `order` is then the complete loop order over the final rank ids
+        self.prep = list(prep) if prep is not None else None
         self.hook = None                   # optional observer (C16): hook(event, rank, coord, info)
 
     # -- preparation: tiling + concordant swizzle ---------------------------
@@ -88,6 +92,8 @@ class Kernel:
         """zshape: optional dict index var -> extent; gives Z a declared shape.
         ztemplate: an (empty) output tensor in the expression's rank order; the kernel's output is the template
         swizzled to the loop order (untiled programs only)."""
+        if self.prep is not None:
+            return self._prepare_general(tensors, zshape)
         order = self.loop_order()
         prepped = []
         for t, ranks in zip(tensors, self.ins):
@@ -112,6 +118,35 @@ class Kernel:
             assert not self.tiles
             Z = ztemplate.swizzleRanks(zorder) if zorder else ztemplate
         elif zshape is not None and zorder:
+            Z = Tensor(rank_ids=zorder, shape=[zshape[r.split(".")[0]] for r in zorder], name="Z")
+        else:
+            Z = Tensor(rank_ids=zorder, name="Z")
+        self.lorder, self.zorder = order, zorder
+        return prepped, Z
+
+    def _prepare_general(self, tensors, zshape):
+        order = list(self.order)
+        prepped = []
+        for t in tensors:
+            tt = t
+            for st in self.prep:
+                ids = tt.getRankIds()
+                if st[0] == "split":
+                    if st[1] in ids:
+                        tt = tt.splitUniform(st[2], depth=ids.index(st[1]))
+                else:
+                    want = [r for r in st[1] if r in ids]
+                    assert sorted(want) == sorted(ids), (want, ids)
+                    if want != ids:
+                        tt = tt.swizzleRanks(want)
+            ids = tt.getRankIds()
+            want = [r for r in order if r in ids]
+            assert sorted(want) == sorted(ids), (want, ids)
+            if want != ids:
+                tt = tt.swizzleRanks(want)
+            prepped.append(tt)
+        zorder = [r for r in order if r.split(".")[0] in self.out]
+        if zshape is not None and zorder:
             Z = Tensor(rank_ids=zorder, shape=[zshape[r.split(".")[0]] for r in zorder], name="Z")
         else:
             Z = Tensor(rank_ids=zorder, name="Z")
